@@ -76,3 +76,10 @@ UNITS.append(Unit('backmp11.on_pseudo_entry', ['C09', 'C13'], 'backmp11', Part(S
     xform=back_xform(['on_explicit_entry'], refparams=(), methods=['process_event'], enums=ENUMS, drop=DROP2, throwers=['on_explicit_entry_stub', 'process_event'], exc_ret='',
         rewrites=[dict(name='TARG-call', pat='on_explicit_entry ( TargetStates , event , fsm ) ;', rep='on_explicit_entry_stub ( self , event , fsm ) ;', min=1, max=1)]),
     replay=['hist']))
+
+for pol, sc in SCOPES.items():
+    if pol == 0: continue
+    UNITS.append(Unit('backmp11.history_impl.%d.member_init' % pol, ['C08', 'C03', 'C13'], 'backmp11',
+        Part(HI, [sc], '', member_init='m_last_active_state_ids'), 'void hist_construct(hist11_t* self)', 'cascade_mp11.spec.h',
+        xform=back_xform([], refparams=(), rewrites=[dict(name='TVAL-init-ids', pat='value_array < InitialStateIds >', rep='g_init_ids16', min=0, max=1)]),
+        defines=['POLICY=%d' % pol], replay=['hist']))
